@@ -43,8 +43,8 @@ type c19Hist struct {
 
 // the documents of OrderedMapHistMC.tla (MCDocs), 1-based there
 var c19Docs = [][]c19Pair{
-	{{"b", 2}, {"c", 1}},
-	{{"c", 2}, {"a", 2}, {"b", 1}},
+	{{"b", 3}, {"c", 0}},
+	{{"c", 3}, {"", 3}, {"b", 0}},
 }
 
 func c19DocText(pairs []c19Pair) string {
@@ -55,7 +55,7 @@ func c19DocText(pairs []c19Pair) string {
 	return "{" + strings.Join(parts, ", ") + "}"
 }
 
-var c19Rank = map[string]int{"a": 1, "b": 2, "c": 3}
+var c19Rank = map[string]int{"": 1, "a": 1, "b": 2, "c": 3}
 
 func c19RankOf(k string) int {
 	if r, ok := c19Rank[k]; ok {
@@ -299,7 +299,7 @@ func c19Replay(args []string) int {
 	defer out.Flush()
 	enc := json.NewEncoder(out)
 	n, bad := 0, 0
-	alphabet := []string{"a", "b", "c", "zz"}
+	alphabet := []string{"", "b", "c", "zz"}
 	for {
 		line, err := in.ReadBytes('\n')
 		if len(bytes.TrimSpace(line)) > 0 {
@@ -353,19 +353,19 @@ func c19Random(args []string) int {
 			var op c19Op
 			switch r := rng.Intn(20); {
 			case r < 8:
-				op = c19Op{Op: "set", K: keys[rng.Intn(nkeys)], V: 1 + rng.Intn(2)}
+				op = c19Op{Op: "set", K: keys[rng.Intn(nkeys)], V: rng.Intn(4)}
 			case r < 13:
 				op = c19Op{Op: "remove", K: keys[rng.Intn(nkeys)]}
 			case r < 15:
 				op = c19Op{Op: "sort", By: []string{"asc", "desc", "coarse"}[rng.Intn(3)]}
 			case r < 17:
-				op = c19Op{Op: "filter", Keep: 1 + rng.Intn(2)}
+				op = c19Op{Op: "filter", Keep: rng.Intn(4)}
 			case r < 18:
 				op = c19Op{Op: "map", K: keys[rng.Intn(nkeys)]}
 			default:
 				n := rng.Intn(4)
 				for j := 0; j < n; j++ {
-					op.Pairs = append(op.Pairs, c19Pair{keys[rng.Intn(nkeys)], 1 + rng.Intn(2)})
+					op.Pairs = append(op.Pairs, c19Pair{keys[rng.Intn(nkeys)], rng.Intn(4)})
 				}
 				// a JSON document cannot usefully repeat a key for this purpose; dedupe (last wins in place)
 				seen := map[string]int{}
